@@ -176,7 +176,16 @@ def main(rep, tier, only):
                         rhs = n.get("r")
                         for m in F.walk(rhs):
                             if m.get("k") == "binop" and m.get("op") == "&" or (n.get("k") == "compound_assign" and n.get("op") == "&="):
-                                consts = [x.get("c") for x in F.walk(rhs) if x.get("c") is not None]
+                                # the constant value of a whole operand of the & (not of literals inside it: for one used bit the
+                                # literal 1 of `1 << used` would pass for the mask)
+                                def top_const(x):
+                                    while x is not None and x.get("c") is None and x.get("k") in ("cast", "icast", "paren") and x.get("e") is not None:
+                                        x = x["e"]
+                                    return x.get("c") if x is not None else None
+                                if m.get("k") == "binop" and m.get("op") == "&":
+                                    consts = [c for c in (top_const(m.get("l")), top_const(m.get("r"))) if c is not None]
+                                else:
+                                    consts = [c for c in (top_const(rhs),) if c is not None]
                                 for c in consts:
                                     try:
                                         if int(c) == (1 << used) - 1:
@@ -270,6 +279,33 @@ def main(rep, tier, only):
         consts = [n.get("c") for n in F.walk(fn.get("body")) if n.get("k") == "lit" and "c" in n]
         ok = consts and all(c == "0" for c in consts)
         (rep.ok if ok else rep.fail)("PAD", key, F.primary_site(fn), F.describe(fn)[:160], **({"how": "all-zero"} if ok else {"why": "null_array is not all-zero: %s" % consts}))
+    # init: built from the all-zero object by set() only (an uninitialised start leaves the padding bits to chance)
+    n_init = 0
+    for fn in db.fns(BF + "init"):
+        u = fn["_unit"]
+        key = "init<%s>" % ",".join(str(x) for x in (fn.get("targs") or [])[:1])[:70]
+        if key in seen:
+            continue
+        seen.add(key)
+        n_init += 1
+        locs = [v for v in F.walk(fn.get("body"), into_lambdas=False) if v.get("k") == "var" and BF + "object" in (u.ty(v.get("t")) or "")]
+        rets = [r for r in F.walk(fn.get("body"), into_lambdas=False) if r.get("k") == "return"]
+        why = None
+        if len(locs) != 1 or len(rets) != 1:
+            why = "init is not `result = null(); set(...)...; return result`"
+        else:
+            calls = [T.callee_qn(u, c) for c in F.walk(locs[0].get("init")) if c.get("k") == "call"]
+            cons = [c for c in F.walk(locs[0].get("init")) if c.get("k") == "construct" and any("no_init" in (u.ty(a.get("t")) or "") for a in c.get("args", []))]
+            if cons or BF + "object::null" not in calls:
+                why = "the result of init does not start from null(): %s" % T.show(T.norm(u, locs[0].get("init")))
+            else:
+                muts = [T.callee_qn(u, c) for c in F.walk(fn.get("body")) if c.get("k") == "call" and c.get("recv") is not None
+                        and T.unwrap(u, c["recv"]) is not None and T.unwrap(u, c["recv"]).get("k") == "ref" and T.unwrap(u, c["recv"]).get("id") == locs[0]["id"]]
+                if any(m not in (BF + "object::set",) for m in muts):
+                    why = "init modifies its result through %s" % [m for m in muts if m != BF + "object::set"]
+        (rep.fail if why else rep.ok)("PAD", key, F.primary_site(fn), F.describe(fn)[:160], **({"why": why} if why else {"how": "null() + set"}))
+    if n_init == 0:
+        rep.broken("C10: bitfield::init is not instantiated")
     for fn in L.method_fns(db, BF + "object"):
         u = fn["_unit"]
         if fn.get("kind") == "ctor" and fn.get("ctor_kind") == "other":
